@@ -1357,7 +1357,7 @@ class SfcfSet:
         self.version = '2.0' + {'o': '', 'c': 'c', 'a': 'a'}[layout]
         self.prefix = str(rng.choice(['data', 'ens_x', 'N200']))
         self.reps = gen_reps(rng, 2 if small else None)
-        self.T = int(rng.integers(2, 5)) if not small else 2
+        self.T = int(rng.integers(2, 5)) if not small else 3
         nwf = int(rng.integers(1, 4)) if not small else 2
         self.wfs = list(range(nwf))
         self.offsets = [0] if small or rng.random() < 0.6 else [0, 1]
